@@ -89,6 +89,7 @@ class _VecPy(PyReader):
     log_hooks = False  # True: operand hooks are logged and answer "no rewrite" (R2/R4); False: they are evaluated (R1)
     hook_log: list = []
     ordered = None  # what the stand-in for _ordered_mul answers: {sign: {(sorted vectors): factor}}
+    shared_ordered = False
 
     def is_instance(self, v, names, n):
         if isinstance(v, _Vec):
@@ -152,6 +153,8 @@ class _VecPy(PyReader):
         if name == "_ordered_mul" and self.ordered is not None:
             for a in n.args:
                 self.ev(a, env, fns)
+            if self.shared_ordered:
+                return self.ordered  # a memoised _ordered_mul answers every caller with the SAME mapping
             return {k_: dict(v_) for k_, v_ in self.ordered.items()}
         if name == "len" and len(n.args) == 1:
             v = self.ev(n.args[0], env, fns)
@@ -229,6 +232,12 @@ def _r2_products(run: Run, mod) -> None:
     {+1: (p, q[, r]) * k1, -1: (s, t[, u]) * k2, 0: a repeated vector * k0}"""
     table = [("VectorDot", False, 2), ("VectorCross", True, 2), ("VectorMixedProduct", True, 3)]
     prod = {"VectorDot": t_dot, "VectorCross": t_cross, "VectorMixedProduct": t_mixed}
+    om = next((x for x in mod.tree.body if isinstance(x, ast.FunctionDef) and x.name == "_ordered_mul"), None)
+    run.require(om is not None, "_ordered_mul not found")
+    deco = [(dotted(d.func) if isinstance(d, ast.Call) else dotted(d)) or "?" for d in om.decorator_list]
+    memo = [d for d in deco if d.split(".")[-1] in ("cacheit", "lru_cache", "cache", "memoize", "memoized")]
+    if len(memo) != len(deco):
+        raise AnalysisError(f"C14: _ordered_mul carries a decorator this analysis does not know: {deco}")
     for cname, antisym, arity in table:
         c = _cls(mod, cname)
         fn = _meth(c, "__new__")
@@ -245,18 +254,30 @@ def _r2_products(run: Run, mod) -> None:
         rd.ordered = {1: {plus: k1}, -1: {minus: k2}, 0: {repeated: k0}}
         operands = [_Vec(gvec(f"in{i}")) for i in range(arity)]
         run.ob("R2", f"{cname}:accumulation")
+        rd.shared_ordered = bool(memo)
+        snapshot = {k_: dict(v_) for k_, v_ in rd.ordered.items()}
         try:
             got = rd.call("__new__", [("class", cname)] + operands, {"evaluate": True})
         except Raised as r_:
             run.violate("R2", f"{MOD}:{cname}.__new__:accumulation", mod, fn, f"{cname}.__new__ raises {r_.exc} while accumulating the sorted terms")
             continue
+        if memo:
+            run.ob("R2", f"{cname}:memoised-mapping-untouched")
+            if set(rd.ordered) != set(snapshot) or any(rd.ordered[k_] != snapshot[k_] for k_ in snapshot):
+                run.violate("R2", f"{MOD}:{cname}.__new__:mutates-memoised-mapping", mod, fn,
+                            f"_ordered_mul is memoised ({memo[0]}), so every caller receives the same mapping - and {cname}.__new__ modifies it: a later product of the same "
+                            f"operands (another class included) works on the damaged mapping and loses terms")
+                rd.ordered = snapshot
         if arity == 2:
             # R4: the operand hooks are rewrite rules for product(lhs, rhs): whoever consults one passes (left operand, right operand) in that order
             hook = {"VectorDot": "_eval_vector_dot", "VectorCross": "_eval_vector_cross"}[cname]
             logged = [e for e in rd.hook_log if e[1] == hook]
             for base_, _, args_ in logged:
                 run.ob("R4", f"{cname}:{'lhs' if base_ is operands[0] else 'rhs'}.{hook}")
-                if not (len(args_) == 2 and args_[0] is operands[0] and args_[1] is operands[1]):
+                in_order = len(args_) == 2 and args_[0] is operands[0] and args_[1] is operands[1]
+                # the dot product is symmetric and R1 decides that the hook computes dot(first, second) whatever it is given: either order is the same value
+                swapped_dot = cname == "VectorDot" and len(args_) == 2 and args_[0] is operands[1] and args_[1] is operands[0]
+                if not (in_order or swapped_dot):
                     run.violate("R4", f"{MOD}:{cname}.__new__:hook-operands-swapped", mod, fn,
                                 f"{cname}.__new__ consults {hook} with its operands not in (left, right) order: the hook's rules rewrite product(first, second), so "
                                 f"a x (b x c) is evaluated as (b x c) x a - the cross product changes sign")
